@@ -13,6 +13,9 @@ def obligations(tier):
     obs += conc('lfq_1thread', 'c12_lfq.c', ['t1'], 1, cflags=['-DSCEN=3'], unwind=3, post_unwind=70, unwind_fn=UF,
                 desc='rculfqueue: one thread, 2 enqueues / 3 dequeues, then drain, callbacks, destroy (sequential baseline)',
                 wit=['a dummy node was retired through call_rcu'], extra=EX)
+    obs += conc('lfq_1thread_leftover', 'c12_lfq.c', ['t1'], 1, cflags=['-DSCEN=4'], unwind=3, post_unwind=70, unwind_fn=UF, live=False,
+                desc='rculfqueue: one thread, 2 enqueues / 1 dequeue: destroy refuses the queue whose head is the last user node; then drain, callbacks, destroy',
+                wit=['destroy was attempted on a non-empty queue', 'a dummy node was retired through call_rcu'], extra=EX)
     # quick tier: the two-thread safety query (10 min); its bounded-completion twin and the larger ones need 15-50 min: thorough tier
     obs += conc('lfq_2threads', 'c12_lfq.c', ['t1', 't2'], R, cflags=['-DSCEN=2'], unwind=3, post_unwind=70, unwind_fn=UF, live=not q, timeout=2700,
                 desc='rculfqueue: 2 threads each enqueue+dequeue: dequeue of the last node forces the dummy swap under contention',
